@@ -28,6 +28,19 @@ yields EXACTLY the CAS that the same document with those structures removed woul
              the CAS and through every view handle, a new view is created and one more structure added; the xmi:ids / sofaNum
              they receive must be the ones the CAS of the filtered document hands out for the same operations (oracle), and the
              ones of the model's generators (Coq: XmiLoadC17.run_ops on gens_of)
+
+Third wave ("the SUPPLIED type system does not define": what a type system defines is what has been created in it by the
+time of the load - the quantifier "all subsets of user types deleted from the type system" says nothing about how the type
+system came to be that subset; clauses "without lenient=True raises", "with lenient=True ... exactly", "leniency never alters
+how known structures are loaded"):
+  history    in half of the cases the TypeSystem object given to the observed load has served before: the same document was
+             loaded through it (lenient or strict, 1-2 times) while further types were still missing, and those types (with
+             their features) were created in the same object in between; the observed load and everything observed after it
+             (content, later ids, adds through handles) must be what a NEW type system with the same types gives (oracle:
+             extra reference load "fresh"; the filter / strict / non-interference clauses apply unchanged, their reference
+             loads use new type systems); an earlier strict load with an element of a then-missing type must have raised
+             TypeNotFoundError.  In Coq the whole session of the object is run by the model (XmiLoadC17.session): every
+             earlier load ends as observed (error kind / a CAS) and the last one is the observed load.
 """
 import json
 import os
@@ -59,12 +72,16 @@ RULE = (
     "cases the _InitialView sofa is renamed in the document (only named views declared); in half of the cases with deleted "
     "types their structures carry the highest xmi:ids; after every successful load fresh structures are added through "
     "every handle and a view is created, and the xmi:ids / sofaNum they receive are compared with those of the filtered "
-    "document's CAS. Non-trivial: at least one element of the document has a deleted type."
+    "document's CAS. In half of the cases the TypeSystem object of the observed load was used before for 1-2 loads of the "
+    "same document (lenient or strict) while further user types (closed under subtypes and ranges, preferring types with "
+    "instances) were missing, which were then created in the same object; in a fifth of those the earlier load saw the same "
+    "types (plain reuse). Non-trivial: at least one element of the document has a deleted type."
 )
 TRUSTED = [
     "Coq 8.16.1 kernel and vm_compute; theorems in Props/C17.v closed under the global context (parse_flt universally quantified)",
     "hand-written model coq/XmiLoad.v of the reader's lenient branch, member skipping, Cas.add guard and Cas._copy; "
-    "coq/XmiLoadC17.v of the entry point's three source branches and of the two id generators of the loaded CAS",
+    "coq/XmiLoadC17.v of the entry point's three source branches, of the two id generators of the loaded CAS and of a "
+    "TypeSystem object serving several loads with create_type in between (its state is the list of defined types)",
     "harness/xmlabs.py (xml.etree only) for bytes <-> abstract documents and for the independent filtering of the document",
     "scen.schema_of for the reduced type system; Python float(str) as a table per case",
     "the document under test is cassis' own to_xmi output (writer correctness is C01/C04)",
@@ -180,6 +197,38 @@ def _load(cassis, data, ts, lenient, source="file", trusted=False):
                 pass
 
 
+def grow_ts(ts, tspec, names):
+    """create_type (+ features) for the types of tspec called `names`, in the TypeSystem object ts, in tspec order."""
+    new = [t for t in tspec if t["name"] in names]
+    for t in new:
+        ts.create_type(t["name"], t["super"])
+    for t in new:
+        for f in t["feats"]:
+            ts.create_feature(ts.get_type(t["name"]), f["name"], f["range"], elementType=f.get("elem"),
+                              multipleReferencesAllowed=f.get("multi"))
+
+
+def ts_with_history(cassis, sc, data, doc):
+    """The TypeSystem object for the observed load: new, or (sc["hist"]) one that has already served loads of the same
+    document while the types st["absent"] were missing as well, those types created in it afterwards.
+    Returns the object and, per earlier load, [error kind | None, number of elements of a type missing at that time]."""
+    deleted = set(sc["deleted"])
+    hist = sc.get("hist") or []
+    if not hist:
+        return scen.build_ts(cassis, reduce_tspec(sc["tspec"], deleted)), []
+    ts = scen.build_ts(cassis, reduce_tspec(sc["tspec"], deleted | set(hist[0]["absent"])))
+    stages = []
+    for i, st in enumerate(hist):
+        missing = deleted | set(st["absent"])
+        schema_i = scen.schema_of(cassis, reduce_tspec(sc["tspec"], missing))
+        n_unknown = sum(1 for e in doc["elems"] if xmlabs.kind(e) == "FS" and c05.type_of_elem(e) not in schema_i)
+        k, v = _load(cassis, data, ts, st["lenient"])
+        stages.append([v if k == "err" else None, n_unknown])
+        nxt = set(hist[i + 1]["absent"]) if i + 1 < len(hist) else set()
+        grow_ts(ts, sc["tspec"], set(st["absent"]) - nxt)
+    return ts, stages
+
+
 LATER_VIEW = "laterView"
 
 
@@ -283,8 +332,13 @@ def run_impl(cassis, sc):
     fdoc, gone = filter_doc(doc, schema)
     lenient = sc["lenient"]
     source, trusted = sc.get("source", "file"), bool(sc.get("trusted"))
-    k, v = _load(cassis, data, scen.build_ts(cassis, red), lenient, source, trusted)
+    ts_main, stages = ts_with_history(cassis, sc, data, doc)
+    k, v = _load(cassis, data, ts_main, lenient, source, trusted)
     main = _outcome(cassis, k, v)
+    fresh = None
+    if sc.get("hist"):                                  # the same load through a new type system with the same types
+        k0, v0 = _load(cassis, data, scen.build_ts(cassis, red), lenient, source, trusted)
+        fresh = _outcome(cassis, k0, v0)
     adds = _adds(cassis, v, {t["name"] for t in red} | set(scen.builtin_table(cassis)), sc) if k == "ok" else []
     k2, v2 = _load(cassis, xmlabs.write(fdoc), scen.build_ts(cassis, red), False)
     filtered = _outcome(cassis, k2, v2)
@@ -295,7 +349,7 @@ def run_impl(cassis, sc):
         if t["name"] not in names:
             names.append(t["name"])
     top = max(doc["elems"], key=lambda e: int(xmlabs.attr(e, "xmi:id") or -1) if xmlabs.kind(e) in ("FS", "Sofa") else -1)
-    return {"main": main, "filtered": filtered, "other": other, "adds": adds, "doc": doc,
+    return {"main": main, "filtered": filtered, "other": other, "adds": adds, "doc": doc, "fresh": fresh, "stages": stages,
             "top_dropped": xmlabs.kind(top) == "FS" and c05.type_of_elem(top) not in schema,
             "dropped_kids": any(xmlabs.kind(e) == "FS" and e["kids"] and c05.type_of_elem(e) not in schema for e in doc["elems"]),
             "n_unknown": len(gone) if gone else
@@ -312,6 +366,14 @@ def _content(o):
     return {k: v for k, v in o.items() if k != "later"}
 
 
+def _brief(o):
+    if "err" in o:
+        return "raises " + o["err"]
+    c = o["canon"]
+    return "members %s, structures %s" % (json.dumps({x["name"]: x["members"] for x in c["sofas"]}),
+                                          json.dumps({i: d["type"] for i, d in sorted(c["fs"].items(), key=lambda kv: int(kv[0]))}))[:400]
+
+
 def _later_differs(what, a, b):
     """Same content: do later operations receive the same numbers from both CASes?"""
     if "later" in a and "later" in b and a["later"] != b["later"]:
@@ -324,7 +386,21 @@ def oracle(cassis, sc, obs):
     main, filt, other = obs["main"], obs["filtered"], obs["other"]
     unknown = obs["n_unknown"] > 0
     how = "source=%s trusted=%s" % (sc.get("source", "file"), bool(sc.get("trusted")))
-    for o in (main, filt, other):
+    fresh = obs.get("fresh")
+    for st, (err, n_unk) in zip(sc.get("hist") or [], obs.get("stages") or []):
+        if not st["lenient"] and n_unk and err != "TypeNotFoundError":
+            return ("an earlier strict load through the same TypeSystem object, when %d element(s) had a type it did not "
+                    "yet define, did not raise TypeNotFoundError: %s" % (n_unk, err))
+    if fresh is not None:
+        hdesc = "; ".join("%s load without %s" % ("lenient" if st["lenient"] else "strict", ",".join(st["absent"]) or "-")
+                          for st in sc["hist"])
+        if not _same(_content(main), _content(fresh)):
+            return ("the type system served earlier loads (%s) before the missing types were created in it, and now loads "
+                    "(lenient=%s) the document differently from a new type system with the same types: %s vs %s" % (
+                        hdesc, sc["lenient"], _brief(main), _brief(fresh)))
+        if _later_differs("used type system vs new type system with the same types", main, fresh):
+            return _later_differs("used type system vs new type system with the same types", main, fresh)
+    for o in (main, filt, other) + ((fresh,) if fresh is not None else ()):
         if any(x[0] == "err" for x in o.get("later", [])):
             return "an operation after the load failed: %s" % json.dumps(o["later"])
     if not sc["lenient"]:
@@ -373,9 +449,15 @@ def render(sc, obs):
         return None
     glater = glist(["(%s, %s)" % ({"add": "OpAdd", "view": "OpNewView"}[k], glist(["(%d)" % i for i in ids])) for k, ids in later])
     src = {"file": "SrcFile", "str": "SrcStr", "path": "SrcPath"}[sc.get("source", "file")]
-    return "mkCase\n %s\n %s\n %s %s %s %s\n (%s)\n %s\n %s" % (scen.g_schema(schema), xmlabs.g_xdoc(obs["doc"]), flts,
-                                                              gbool(sc["lenient"]), src, gbool(bool(sc.get("trusted"))), out,
-                                                              glater, adds)
+    ghist = []
+    for st, (err, _n) in zip(sc.get("hist") or [], obs.get("stages") or []):
+        if err is not None and err not in ERR:
+            return None
+        ghist.append("(%s, %s, %s)" % (glist([gstr(a) for a in st["absent"]]), gbool(st["lenient"]),
+                                       "None" if err is None else "(Some %s)" % ERR[err]))
+    return "mkCase\n %s\n %s\n %s %s %s %s\n %s\n (%s)\n %s\n %s" % (scen.g_schema(schema), xmlabs.g_xdoc(obs["doc"]), flts,
+                                                                    gbool(sc["lenient"]), src, gbool(bool(sc.get("trusted"))),
+                                                                    glist(ghist), out, glater, adds)
 
 
 def nontrivial(sc):
@@ -389,7 +471,9 @@ def generate(rng, tier):
     _CACHE["cassis"] = cassis
     n = {"quick": 40, "thorough": 320, "search": 400}[tier]
     for k in range(n):
-        r = random.Random(rng.randrange(1 << 30))
+        sub = rng.randrange(1 << 30)
+        r = random.Random(sub)
+        hr = random.Random(sub ^ 0x17C3)      # own stream for the third-wave choices: everything else stays as it was
         tspec = scen.gen_tspec(r, n_types=r.choice([3, 5, 8]), max_feats=r.choice([2, 4]))
         kids_type = None
         if r.random() < 0.7:     # a string array / list written as nested child elements: what a dropped element may carry
@@ -430,10 +514,41 @@ def generate(rng, tier):
                 yield {"tspec": tspec, "cspec": cs, "deleted": deleted, "lenient": lenient, "dangling": dangling,
                        "order": order, "oseed": oseed, "foreign_short": [s for s in foreign_short if s not in user],
                        "source": r.choice(["file", "str", "path"]), "trusted": r.random() < 0.5, "noinit": noinit,
-                       "hi_ids": hi_ids}
+                       "hi_ids": hi_ids, "hist": gen_hist(hr, tspec, cs, user, set(deleted))}
+
+
+def gen_hist(hr, tspec, cspec, user, deleted):
+    """Earlier loads through the TypeSystem object of the case: [{"absent": types missing then (besides `deleted`),
+    "lenient": flag}], the sets shrinking from one load to the next; [] = a new type system."""
+    if hr.random() < 0.5:
+        return []
+    kept = [n for n in user if n not in deleted]
+    inst = sorted({o["type"] for o in cspec["objs"]} & set(kept))
+
+    def closed(base):
+        d = close_deleted(tspec, deleted | set(base)) - deleted
+        return sorted(d) if len(d) < len(kept) else None     # something of the user's stays defined at every stage
+
+    first = []
+    if kept and hr.random() < 0.8:
+        pool = inst if inst and hr.random() < 0.8 else kept
+        first = closed(hr.sample(pool, hr.randint(1, max(1, len(pool) // 2)))) or []
+    hist = [{"absent": first, "lenient": hr.random() < 0.6}]
+    if hr.random() < 0.35:
+        second = []
+        if len(first) > 1 and hr.random() < 0.7:
+            second = [n for n in (closed(hr.sample(first, hr.randint(1, len(first) - 1))) or []) if n in first]
+        hist.append({"absent": second, "lenient": hr.random() < 0.5})
+    return hist
 
 
 def shrink_candidates(sc):
+    if sc.get("hist"):
+        for h in ([], sc["hist"][:-1], sc["hist"][1:]):
+            if h != sc["hist"]:
+                c = json.loads(json.dumps(sc))
+                c["hist"] = h
+                yield c
     for key, plain in (("order", None), ("noinit", False), ("source", "file"), ("trusted", False)):
         if sc.get(key) not in (None, plain):
             c = json.loads(json.dumps(sc))
@@ -464,6 +579,13 @@ def signature(sc, msg):
     return {"what": (msg or "").split(":")[0].split(" (source=")[0][:70], "lenient": sc["lenient"]}
 
 
+def _count(it):
+    out = {}
+    for x in it:
+        out[x] = out.get(x, 0) + 1
+    return out
+
+
 def distribution(scenarios, observations):
     errs = {}
     for o in observations:
@@ -482,6 +604,11 @@ def distribution(scenarios, observations):
             "highest_id_is_dropped": sum(1 for o in observations if o and o.get("top_dropped")),
             "later_operations": sum(len(o["main"].get("later", [])) for o in observations if o),
             "dropped_elements_with_child_elements": sum(1 for o in observations if o and o.get("dropped_kids")),
+            "used_type_system": sum(1 for s in scenarios if s.get("hist")),
+            "earlier_loads": sum(len(s.get("hist") or []) for s in scenarios),
+            "types_created_after_a_load": sum(1 for s in scenarios if any(st["absent"] for st in s.get("hist") or [])),
+            "earlier_load_met_then_missing_type": sum(1 for o in observations if o and any(n for _e, n in o.get("stages") or [])),
+            "earlier_load_outcomes": _count(str(e) for o in observations if o for e, _n in o.get("stages") or []),
             "short_name_collisions": sum(1 for s in scenarios if any(t["name"] == "T0" for t in s["tspec"]))}
 
 
